@@ -372,9 +372,45 @@ def inventory(repo: str) -> list[str]:
                 out.add(f"module-object|{r}|{name}:{module_names[name]}|{','.join(sorted(hows))}")
         for name, k in class_objs.items():
             if name not in shadowed:
-                hows = muts.get((rel, name), set())
+                hows = set(muts.get((rel, name), set()))
+                # a mutation through ANY receiver anywhere in the package (`self.decompiler.<attr>.append(...)` in another file)
+                if name.split(".", 1)[1] in attr_mutated_anywhere(trees):
+                    hows.add("mutated-through-attribute@fn")
                 out.add(f"class-object|{rel}|{name}:{k}|{','.join(['unshadowed'] + sorted(hows))}")
     return canon_items(sorted(out))
+
+
+_ATTR_MUT_CACHE: dict[int, set[str]] = {}
+
+
+def attr_mutated_anywhere(trees: dict) -> set[str]:
+    """attribute names `a` for which some function of the package contains `<expr>.a.<mutator>(…)`, `<expr>.a[…] = …`,
+    `<expr>.a += …` or `del <expr>.a[…]` - whatever the receiver expression is"""
+    key = id(trees)
+    if key in _ATTR_MUT_CACHE:
+        return _ATTR_MUT_CACHE[key]
+    found: set[str] = set()
+    for tree in trees.values():
+        for fn in ast.walk(tree):
+            if not isinstance(fn, (ast.FunctionDef, ast.AsyncFunctionDef)):
+                continue
+            for n in ast.walk(fn):
+                if isinstance(n, ast.Call) and isinstance(n.func, ast.Attribute) and n.func.attr in MUTATORS and isinstance(n.func.value, ast.Attribute):
+                    found.add(n.func.value.attr)
+                tgts = []
+                if isinstance(n, ast.Assign):
+                    tgts = n.targets
+                elif isinstance(n, (ast.AugAssign, ast.AnnAssign)):
+                    tgts = [n.target]
+                elif isinstance(n, ast.Delete):
+                    tgts = n.targets
+                for t in tgts:
+                    if isinstance(t, ast.Subscript) and isinstance(t.value, ast.Attribute):
+                        found.add(t.value.attr)
+                    if isinstance(n, ast.AugAssign) and isinstance(t, ast.Attribute):
+                        found.add(t.attr)
+    _ATTR_MUT_CACHE[key] = found
+    return found
 
 
 SCOPE_FREE = ("ambient-read", "call", "identity-key", "set-iteration")
